@@ -327,14 +327,10 @@ def run_shard(shard, rec):
     P = fixture.pyro()
     r = gen.rng(rec.seed, "c09", repr(sorted(shard.items())))
     if shard["kind"] == "sched":
-        for k in REQUIRED_REACH:
-            if k != "schedules_explored":
-                rec.count(k)
         for shape in SHAPES:
             for creator in (["none", "ok"] if shard["mode"] == "single" else ["none"]) + (["raises"] if shape == "truthy" else []):
                 explore(P, shard["mode"], shape, creator, shard["nthreads"], shard["bound"], shard["nrandom"], rec, r)
         return
-    rec.count("schedules_explored")
     fx = fixture.Fixture(servertype=shard["servertype"], COMMTIMEOUT=0.0, THREADPOOL_SIZE=40, THREADPOOL_SIZE_MIN=2)
     try:
         mode = shard["mode"]
